@@ -98,4 +98,104 @@ class BFSpec(BF):
             'a non-optimal statistic' if obs[0] == 'ok' else obs[1], inp['text'], inp['pc'], inp['twopl'])
 
 
-RELATIONS = [BF(), BFSpec()]
+# ---- cross-check of the two solving modes (Proofs/CrossCheck.v) ---------------------------------------------
+
+VARIANTS = [
+    (['-maxsize', '1'], 'size', 'optimal_size'),
+    (['-maxsize', '1', '-mincost', '2'], 'cost0', 'optimal_maxsizemincost0'),
+    (['-maxsize', '1', '-minsqcost', '2'], 'cost_sq0', 'optimal_maxsizeminsqcost0'),
+    (['-maxsize', '1', '-gre', '2'], 'profile', 'optimal_greedymaxprofile'),
+    (['-maxsize', '1', '-gen', '2'], 'profile', 'optimal_generousmaxprofile'),
+    (['-maxsize', '1', '-gen', '2'], 'degree', 'optimal_maxsizemindegree'),
+    (['-gre', '1'], 'profile', 'optimal_greedyprofile'),
+    (['-lmb', '1'], 'max_lec_abs_diff', 'optimal_max_lec_abs_diff'),
+    (['-lsb', '1'], 'sum_lec_abs_diff', 'optimal_sum_lec_abs_diff'),
+]
+
+
+def _fields(txt):
+    """'key: value' lines of a results text -> {key: list of ints}; 'key0' = first component of a pair"""
+    import re
+    out = {}
+    for line in txt.splitlines():
+        m = re.match(r'^(\w+): (.*)$', line)
+        if not m:
+            continue
+        nums = [int(x) for x in re.findall(r'-?\d+', m.group(2))]
+        out[m.group(1)] = nums
+        if nums:
+            out[m.group(1) + '0'] = nums[:1]
+    return out
+
+
+def run_cross(inp):
+    base = ['-na', str(inp['na'])] + (['-twopl'] if inp['twopl'] else []) + (['-pc'] if inp['pc'] else [])
+    bf = impl.solver_run(inp['text'], base + ['-bf'])[0]
+    lp = impl.solver_run(inp['text'], base + VARIANTS[inp['variant']][0])[0]
+    return [bf, lp]
+
+
+class CrossCheck(Relation):
+    name = 'M_crosscheck'
+    kind = 'monitor'
+    requires = REQ + ['Corr.C10Corr']
+    describe = ('the two solving modes on the same instance (Proofs/CrossCheck.v): what the integer-programming mode '
+                'reaches for -maxsize / -maxsize -mincost / -maxsize -minsqcost / -maxsize -gre / -maxsize -gen (profile '
+                'and degree) / -gre / -lmb / -lsb must be the optimum brute-force mode prints, and one mode says '
+                'Infeasible exactly when the other does, on well-formed instances (guard evaluated in Coq); non-trivial = both '
+                'feasible and >= 2 students with lists')
+
+    def cases(self, ctx):
+        k = 0
+        for c in gen(ctx, self.name, 500 if ctx.thorough else 90):
+            if c.get('ast') is None:
+                continue
+            c = dict(c, variant=k % len(VARIANTS))
+            k += 1
+            yield c
+
+    def observe(self, inp):
+        return C.observe(run_cross, inp)
+
+    def term(self, inp, obs):
+        if obs[0] != 'ok':
+            return 'false'
+        bf, lp = obs[1]
+        bf_inf = bf.rstrip().endswith('Infeasible')
+        lp_f = _fields(lp)
+        lp_inf = 'matching' not in lp_f
+        if bf_inf or lp_inf:
+            return self.guard(inp, 'true' if (bf_inf and lp_inf and 'pulp_status: Infeasible' in lp) else 'false')
+        _, lk, bk = VARIANTS[inp['variant']]
+        a, b = lp_f.get(lk), _fields(bf).get(bk)
+        if a is None or b is None:
+            return 'false'
+        cmp = '(list_eqb Z.eqb %s %s)' % (C.czlist(a), C.czlist(b))
+        return self.guard(inp, cmp)
+
+    @staticmethod
+    def guard(inp, verdict):
+        # the theorems are about well-formed instances (e.g. a lecturer target above its upper quota is importable
+        # but outside every property's quantifier): Coq evaluates the guard
+        return '(if c10_wf %s %s %s then %s else true)' % (C.cstr(inp['text']), C.cz(inp['na']), C.cbool(inp['twopl']), verdict)
+
+    def key(self, inp):
+        return repr((inp['text'], inp['na'], inp['twopl'], inp['pc'], inp['variant']))
+
+    def signature(self, inp, obs):
+        return {'relation': self.name, 'text': inp['text'], 'na': inp['na'], 'twopl': inp['twopl'], 'pc': inp['pc'],
+                'variant': VARIANTS[inp['variant']][0]}
+
+    def nontrivial(self, inp, obs):
+        a = inp.get('ast')
+        return bool(a) and sum(1 for gs in a['first'] if gs) >= 2 and obs[0] == 'ok' and 'matching' in _fields(obs[1][1])
+
+    def stats(self, inp, obs):
+        return {'variant=' + ' '.join(VARIANTS[inp['variant']][0]): 1, 'pc' if inp['pc'] else 'no-pc': 1}
+
+    def what(self, inp, obs):
+        return 'brute force and the integer-programming mode (%s) disagree on %r (pc=%s twopl=%s)' % (
+            ' '.join(VARIANTS[inp['variant']][0]), inp['text'], inp['pc'], inp['twopl'])
+
+
+RELATIONS = [BF(), BFSpec(), CrossCheck()]
